@@ -289,6 +289,91 @@ class ElfGen(object):
 
 
 # ------------------------------------------------------------------------------------------------
+# ELF images for the sweep over every registered ELF loader (OS, bare-metal fallback, vm …)
+# ------------------------------------------------------------------------------------------------
+
+# usual link addresses (hosted executables, PIE-like low images, flash / RAM windows of micro-controllers); all of them
+# away from the top of the 31-bit user space, where the OS loaders put their stack pages
+LINK_BASES = [0x10000, 0x400000, 0x08048000, 0x10000000, 0x20000000, 0x60000000, 0x80000000, 0xA0000000]
+ISOLATION = 0x10000                      # >= every page size a loader may use: segments never share a page
+TAIL_CAP = 0x30000
+TAIL_CLASSES = ["none", "in-page", "to-page-end", "1-further-page", "k-further-pages", "k-further-pages", "k-further-pages"]
+FILE_CLASSES = ["pure-bss", "small", "small", "to-page-end", "over-a-page"]
+
+
+def bss_tail_image(r, machine, x64, be, ps, ck=None, probe=False, light=False):
+    """an executable for `machine` whose PT_LOAD segments are isolated (no two within 64K of each other, whatever page
+    size the loader uses) and end in zero-filled tails of every class: none / inside the last file-backed page / exactly
+    to its end / into the next page / over several further pages (of the configured page size and of 4096, the page size
+    of the loaders that have one of their own).  The bytes of the file behind every file-backed part are non-zero.
+    `probe`: the plainest image of the family (one segment, no tail).  → (bytes, meta)"""
+    U = max(ps, 4096)
+    nseg = 1 if probe else r.choice([1, 2, 2, 3])
+    va = r.choice(LINK_BASES) + r.randrange(0, 16) * ISOLATION
+    segs, kinds = [], []
+    fcur = U                               # the first file page holds the header tables
+    multi = False
+    for n in range(nseg):
+        inpage = 0 if probe else r.choice([0, 0, r.randrange(1, U), U - r.randrange(1, 32), r.randrange(1, 64)])
+        fclass = "small" if probe else r.choice(FILE_CLASSES)
+        room0 = U - inpage
+        fs = {"pure-bss": 0, "small": r.randrange(1, max(2, min(room0, U // 2))), "to-page-end": room0,
+              "over-a-page": room0 + r.randrange(1, U + 1)}[fclass]
+        end = inpage + fs
+        room = (-end) % U                 # bytes left in the last file-backed page (of size U)
+        tclass = "none" if probe else r.choice(TAIL_CLASSES)
+        if tclass == "in-page" and room < 2:
+            tclass = "1-further-page"
+        if tclass == "none" and fs == 0:
+            tclass = "k-further-pages"
+        W = r.choice([ps, 4096, U])
+        if tclass == "none":
+            tail = 0
+        elif tclass == "in-page":
+            tail = r.randrange(1, room)
+        elif tclass == "to-page-end":
+            tail = room if room else U
+        elif tclass == "1-further-page":
+            tail = room + r.randrange(1, W + 1)
+        else:
+            k = r.choice([2, 2, 3, 5] if light else [2, 3, 5, 8, 13])
+            tail = room + (k - 1) * W + r.randrange(1, W + 1)
+        tail = min(tail, TAIL_CAP)
+        if tail > room:
+            multi = True
+        off = fcur + inpage
+        p = dict(type=PT_LOAD, offset=off, vaddr=va + inpage, filesz=fs, memsz=fs + tail, flags=7, align=U)
+        segs.append(p)
+        kinds.append("%s/tail:%s" % (fclass, tclass))
+        fcur = -(-(off + fs + 1) // U) * U
+        va = -(-(va + inpage + fs + tail) // ISOLATION) * ISOLATION + r.randrange(1, 4) * ISOLATION
+    if any(p["vaddr"] + p["memsz"] >= (1 << 32) for p in segs):
+        return bss_tail_image(r, machine, x64, be, ps, ck, probe, light)
+    nbody = fcur + 64
+    body = bytearray((r.getrandbits(8) % 255) + 1 for _ in range(nbody))
+    withfile = [p for p in segs if p["filesz"] >= 4]
+    if withfile:
+        p = withfile[0]
+        entry = p["vaddr"] + r.randrange(0, p["filesz"] - 3)
+        entry += (-entry) % 4
+        if entry >= p["vaddr"] + p["filesz"]:
+            entry = p["vaddr"] + (-p["vaddr"]) % 4
+    else:
+        entry = segs[0]["vaddr"] + (-segs[0]["vaddr"]) % 4
+    ehsz = 64 if x64 else 52
+    head = ehdr(x64, be, machine, entry, ehsz, len(segs), 0, 0, 0) + b"".join(phdr(x64, be, p) for p in segs)
+    body[:len(head)] = head
+    if ck is not None and not probe:
+        for k in kinds:
+            for part in k.split("/"):
+                ck.count("sweep.seg." + part)
+        ck.count("sweep.nseg.%d" % nseg)
+        ck.count("sweep.ps.%d" % ps)
+    return bytes(body), dict(format="elf", machine=machine, x64=x64, be=be, ps=ps, kinds=kinds, multi_page_tail=multi,
+                             probe=probe)
+
+
+# ------------------------------------------------------------------------------------------------
 # PE
 # ------------------------------------------------------------------------------------------------
 
